@@ -70,7 +70,11 @@ def do_replay(cid, path, tier, seed):
     case = data["case"] if isinstance(data, dict) and "case" in data else data
     chk = load_check(cid, data.get("tier", tier) if isinstance(data, dict) else tier, seed)
     rep = Report(seed)
-    chk.replay(case, rep)
+    if isinstance(data, dict) and data.get("whole_shard") is not None:
+        # the violation needs the cases that ran before it in the same process: replay the whole shard
+        chk.run_shard(data["whole_shard"], rep)
+    else:
+        chk.replay(case, rep)
     if rep.viol_count:
         for v in rep.violations:
             print("REPLAY-FAIL", json.dumps(v, default=repr)[:4000])
@@ -87,14 +91,21 @@ def confirm(cid, v, tier):
     with open(path, "w") as f:
         json.dump({"property": cid, "tier": tier, "case": v["case"], "detail": v["detail"],
                    "sig": v["sig"]}, f, indent=1, default=repr)
-    try:
-        r = subprocess.run([sys.executable, "-B", "-m", "mcv.cli", cid, "--replay", path,
-                            "--tier", tier], cwd=core.VERIF, capture_output=True, text=True,
-                           timeout=900)
-        ok = r.returncode == 1
-        out = r.stdout[-2000:]
-    except subprocess.TimeoutExpired:
-        ok, out = True, "replay timed out (hang confirmed)"
+    def run():
+        try:
+            r = subprocess.run([sys.executable, "-B", "-m", "mcv.cli", cid, "--replay", path,
+                                "--tier", tier], cwd=core.VERIF, capture_output=True, text=True,
+                               timeout=1800)
+            return r.returncode == 1, r.stdout[-2000:]
+        except subprocess.TimeoutExpired:
+            return True, "replay timed out (hang confirmed)"
+    ok, out = run()
+    if not ok and v.get("shard") is not None and "replay_case" not in v["shard"]:
+        # not reproducible alone: replay the shard it occurred in (state carried over from earlier cases)
+        with open(path, "w") as f:
+            json.dump({"property": cid, "tier": tier, "case": v["case"], "detail": v["detail"], "sig": v["sig"],
+                       "whole_shard": v["shard"]}, f, indent=1, default=repr)
+        ok, out = run()
     return ok, path, out
 
 
